@@ -117,4 +117,39 @@ pub fn hcalc_triang_small(s: &mut Src) -> R {
     Ok(())
 }
 
-crate::harness_table!(HCALC: hcalc_small, hcalc_schur_small, hcalc_triang_small);
+
+// C08 (chain reduction) — witness search / replay for the Verus unit `chain_red` on the real crate: complexes
+// Z^2 --d1--> Z^3 --d2--> Z^2 with d2 = [k (u x v)^T ; l (u x v)^T], entries small (so units are frequent and pivots exist),
+// degrees 0, 1, 2 with d of degree +1; reduce with transfer maps.
+pub fn hcalc_reducer_small(s: &mut Src) -> R {
+    use yui_homology::utils::ChainReducer;
+    use yui_homology::GenericChainComplex;
+    let mut u = [0i64; 3]; let mut v = [0i64; 3];
+    for i in 0..3 { u[i] = s.small(-2, 2); v[i] = s.small(-2, 2); }
+    let (k, l) = (s.small(-1, 2), s.small(-1, 1));
+    reach!();
+    let w = [u[1] * v[2] - u[2] * v[1], u[2] * v[0] - u[0] * v[2], u[0] * v[1] - u[1] * v[0]];
+    let d0 = SpMat::from_dense_data((3, 2), [u[0], v[0], u[1], v[1], u[2], v[2]]);
+    let d1 = SpMat::from_dense_data((2, 3), [k * w[0], k * w[1], k * w[2], l * w[0], l * w[1], l * w[2]]);
+    let d2 = SpMat::<i64>::zero((0, 2));
+    let ds = [d0.clone(), d1.clone(), d2.clone()];
+    let c = GenericChainComplex::<i64>::generate(0..=2isize, 1, |i| ds[i as usize].clone());
+    let r = ChainReducer::reduce(&c, true);
+    let (e0, e1) = (r.matrix(0).unwrap().clone(), r.matrix(1).unwrap().clone());
+    ob!(e1.ncols() == e0.nrows(), "ChainReducer::sizes-match");
+    ob!((&e1 * &e0).is_zero(), "ChainReducer::d.d==0-after-reduction");
+    // the homology is unchanged: compare ranks / torsion of H1 before and after
+    let h_before = HomologyCalc::calculate(d0.clone(), d1.clone(), false);
+    let h_after = HomologyCalc::calculate(e0.clone(), e1.clone(), false);
+    let norm = |t: &Vec<i64>| { let mut t: Vec<i64> = t.iter().map(|x| x.abs()).collect(); t.sort(); t };
+    ob!(h_before.0 == h_after.0 && norm(&h_before.1) == norm(&h_after.1), "ChainReducer::homology-unchanged");
+    // transfer maps: F B = I, chain maps in both directions
+    let (t0, t1, t2) = (r.trans(0).unwrap(), r.trans(1).unwrap(), r.trans(2).unwrap());
+    let fb = |t: &yui_matrix::sparse::Trans<i64>| (&t.forward_mat() * &t.backward_mat()).into_dense() == SpMat::<i64>::id(t.tgt_dim()).into_dense();
+    ob!(fb(t0) && fb(t1) && fb(t2), "ChainReducer::trans::F.B==I");
+    ob!((&t1.forward_mat() * &d0).into_dense() == (&e0 * &t0.forward_mat()).into_dense() && (&t2.forward_mat() * &d1).into_dense() == (&e1 * &t1.forward_mat()).into_dense(), "ChainReducer::trans::forward-is-a-chain-map");
+    ob!((&d0 * &t0.backward_mat()).into_dense() == (&t1.backward_mat() * &e0).into_dense() && (&d1 * &t1.backward_mat()).into_dense() == (&t2.backward_mat() * &e1).into_dense(), "ChainReducer::trans::backward-is-a-chain-map");
+    Ok(())
+}
+
+crate::harness_table!(HCALC: hcalc_small, hcalc_schur_small, hcalc_triang_small, hcalc_reducer_small);
